@@ -270,6 +270,37 @@ func TestVerifC06(t *testing.T) {
 					}
 					r.Violation(fmt.Sprintf("seal-differs-from-sp800-38d:%s:%s:%s", pn, lab, where), d)
 				}
+				// the same message sealed INTO a caller's buffer (prefix kept, room exact / ample / missing, in place):
+				// the standard's output must follow the prefix
+				if !p && i%2 == 0 {
+					pre := []int{1, 5, 16, 33}[(i/8)%4]
+					shape := (i / 2) % 4
+					pt := c.pt
+					var dst []byte
+					switch shape {
+					case 0:
+						dst = make([]byte, pre, pre+len(c.pt)+c.tag)
+					case 1:
+						dst = make([]byte, pre, pre+len(c.pt)+c.tag+37)
+					case 2:
+						dst = make([]byte, pre, pre+len(c.pt)/2)
+					default:
+						buf := make([]byte, len(c.pt), len(c.pt)+c.tag)
+						copy(buf, c.pt)
+						pt, dst, pre = buf, buf[:0], 0
+					}
+					for k := range dst {
+						dst[k] = byte(0xC0 + k)
+					}
+					keep := append([]byte{}, dst...)
+					var got2 []byte
+					p2, msg2, _, _ := hk.Try(func() { got2 = aead.Seal(dst, c.nonce, pt, c.aad) })
+					if p2 || len(got2) != pre+len(want) || !bytes.Equal(got2[:pre], keep) || !bytes.Equal(got2[pre:], want) {
+						d := c.detail()
+						d["panic"], d["dst_shape"], d["dst_len"], d["returned"] = msg2, []string{"exact-room", "ample-room", "too-little-room", "in-place"}[shape], pre, clip(got2)
+						r.Violation(fmt.Sprintf("seal-into-dst-differs-from-sp800-38d:%s:%s", pn, lab), d)
+					}
+				}
 				if lab == "counter-wrap" {
 					r.Eval(pn + "|" + c.label + "|pt[" + kernelClass(len(c.pt)) + "]")
 					r.Count("wrap_positions_"+pn, 1)
